@@ -24,6 +24,12 @@ quiet_stderr()
 """
 
 
+def _keeps_invariant(node) -> bool:
+    """`count += <positive even constant>` (skipping ids) keeps parity and freshness; any other store does not, in general"""
+    return (isinstance(node, ast.AugAssign) and isinstance(node.op, ast.Add) and isinstance(node.value, ast.Constant)
+            and isinstance(node.value.value, int) and node.value.value > 0 and node.value.value % 2 == 0)
+
+
 def id_allocation_kernel():
     """E3: read the id-allocation kernel off the real source: start counts of both sides and the increment in
     ChannelFactory.new, then discharge the parity induction in z3 (unbounded ints)."""
@@ -55,7 +61,26 @@ def id_allocation_kernel():
                 continue
             if fn.name == "new" and tgt[0] == "aug" and isinstance(sub.op, ast.Add) and isinstance(sub.value, ast.Constant) and sub.value.value == step:
                 continue
+            if _keeps_invariant(sub):
+                continue
             other_stores.append(f"{fn.name}: {ast.unparse(sub)}")
+    # ... and so does a store to a channel factory's counter from anywhere else in the package (e.g. `gw._channelfactory.count -= 2`)
+    import execnet
+    import glob
+    import os
+
+    for path in sorted(glob.glob(os.path.join(os.path.dirname(execnet.__file__), "*.py"))):
+        try:
+            mod_tree = ast.parse(open(path).read())
+        except (OSError, SyntaxError):
+            continue
+        for sub in ast.walk(mod_tree):
+            targets = sub.targets if isinstance(sub, ast.Assign) else ([sub.target] if isinstance(sub, (ast.AugAssign, ast.AnnAssign)) else [])
+            for tgt in targets:
+                if isinstance(tgt, ast.Attribute) and tgt.attr == "count" and "channelfactory" in ast.unparse(tgt.value).lower():
+                    if _keeps_invariant(sub):
+                        continue
+                    other_stores.append(f"{os.path.basename(path)}:{sub.lineno}: {ast.unparse(sub)}")
     gsrc = inspect.getsource(gateway.Gateway.__init__)
     ssrc = inspect.getsource(gb.serve)
     def startcount(text):
@@ -107,7 +132,7 @@ def build(tier):
         for nested in (0, 1, 2):
             src = e1.make_module(PRELUDE, "h", "item: int", ["-2147483648 <= item <= 2147483647"], f"return channel_transfer_ok({n_pre}, {nested}, item)\n")
             obs.append(Obligation(name=f"transfer_pre{n_pre}_nested{nested}", module_src=src, fn="h", timeout=t, meta={"pre": n_pre, "nested": nested}))
-    for kind in (0, 1, 2):
+    for kind in (0, 1, 2, 3):
         for n_items in ((0, 1, 3) if thorough else (1,)):
             src = e1.make_module(PRELUDE, "h", "ending: int, item: int", ["0 <= ending <= 6", "-2147483648 <= item <= 2147483647"],
                                  f"return channel_forgotten_ok({kind}, ending, {n_items}, item)\n")
@@ -135,7 +160,7 @@ def run(tier: str) -> Outcome:
         stubs=["two real gateways over Popen2IO/PipeFile; receiver thread bodies run synchronously",
                "E3 kernel: ChannelFactory.new's read-and-increment is taken as atomic because the extracted AST shows both inside `with self._writelock` (a threading.RLock)"],
         bounds=("E3: parity/freshness induction over unbounded integers (any number of channels); E1: 0/2 (thorough 0/1/3) pre-existing channels, a channel sent "
-                "bare / inside a list / inside a tuple inside a dict, symbolic item; table hygiene: queue / callback / callback+endmarker channel x 7 endings (local close, peer close, drop then peer close, LAST_MESSAGE then close, close then late peer close, peer close with error, drop only; symbolic choice) x 1 (thorough 0/1/3) items; save_Channel/load_channel with the id from a 7-entry catalogue incl. both ends of the range (all ids 0..2**31-1: bug hunting only, hashing realises the id)"),
+                "bare / inside a list / inside a tuple inside a dict, symbolic item; table hygiene: queue / callback / callback+endmarker / late callback channel x 7 endings (local close, peer close, drop then peer close, LAST_MESSAGE then close, close then late peer close, peer close with error, drop only; symbolic choice) x 1 (thorough 0/1/3) items; save_Channel/load_channel with the id from a 7-entry catalogue incl. both ends of the range (all ids 0..2**31-1: bug hunting only, hashing realises the id)"),
         outside=["interleavings of concurrent newchannel() callers beyond the lock argument above", "ids above 2**31-1 (more than 10**9 channels on one gateway)",
                  "weak-table entries disappear at the explicit drop/close step (CPython refcounting)"],
         explanation=("E3: the id-allocation kernel (start counts 1 / 2, increment, locking) is read from the real source by AST and the invariant 'count and every issued id "
